@@ -7,6 +7,9 @@ props = [json.loads(l) for l in open(os.path.join(ROOT, 'properties.jsonl'))]
 
 # id -> (technique, level text, level note, design ref)
 CHECKS = {
+ 'C20': ('runtime round-trip monitors over generated values of every type with a text/JSON form (registry with go/parser completeness self-check); shadow client store driven by JSON-round-tripped updates on generated histories; exhaustive single-character corruption of address strings and length/prefix/alphabet corruption of all identifier forms',
+         '115 registered types (153 forms) are formatted and parsed back over generated values incl. the unusual ones the quantifier lists, compared up to an explicit normaliser; on generated chains with reorgs every ApplyUpdate/RevertUpdate goes through JSON and drives a shadow store that must stay identical (every element, leaf index and proof hash) to the store driven by the originals and verify against the state; every single-character substitution of address strings and length/prefix/alphabet/case corruptions of every identifier syntax must yield an error or the same value, never another value or a panic.',
+         'Trusted: the explicit normaliser (nil = empty, instants, sentinel payout, convenience fields); values restricted to what JSON can represent.', '§5 C20'),
  'C18': ('runtime round-trip monitors on the states of generated histories: multiproof encode/decode with hash-by-hash proof comparison and an independent minimal-size oracle; outline ID/Missing/codec/Complete over all subsets of omitted transactions',
          'Accepted v2 blocks and synthetic transaction sets over all live store elements (every parent kind, storage-proof chain indices, ephemeral parents, duplicate leaves, several tree heights) are round-tripped through the multiproof form: every proof restored bit for bit, block ID / commitment / ValidateBlock verdict unchanged, transmitted hashes equal the minimal multiproof computed from leaf positions; outlines for every subset of omitted transactions (exhaustive for blocks of <= 10 transactions) keep the block ID, survive their codec, complete exactly from shuffled superset pools and report exactly the withheld hashes.',
          'Trusted: proofs come from the client store at one state; the minimal-multiproof size model.', '§5 C18'),
